@@ -81,6 +81,26 @@ fn main() {
         let _ = tracing_subscriber::fmt().with_env_filter(f).with_writer(std::io::stderr).without_time().try_init();
     }
     exec::install_panic_hook();
+    if args[0] == "--probe-determinism" {
+        // run the default execution of one C05 unit several times in this process and print the
+        // hash of everything observed: all lines must be equal, within and across processes
+        let unit: Value = serde_json::from_str(&args[1]).unwrap();
+        for i in 0..4 {
+            let u = unit.clone();
+            let o = simrun::sim_exec(seed(), &[], 5_000, move |sim| {
+                use futures::FutureExt;
+                async move {
+                    let obs = checks::c05::scenario_pub(sim.clone(), u).await;
+                    let h = sim.chooser.lock().unwrap().obs_hash;
+                    (obs, h)
+                }
+                .boxed()
+            });
+            let r = o.run.unwrap();
+            println!("run {i}: obs_hash {:016x} datagrams {} points {}", r.obs.1, r.datagrams, r.trace.len());
+        }
+        return;
+    }
     if args[0] == "--probe-governor" {
         probe::governor_burst();
         return;
